@@ -168,7 +168,7 @@ fn finish(st: &mut St, rng: &mut Rng, o: &mut String) {
 /// landmarks for positions inside a buffer of `len` bytes; big mode adds the sizes at which size-dependent code could switch behaviour
 fn marks(base: &[usize], len: usize) -> Vec<usize> {
     let mut v = base.to_vec();
-    if BIG.load(AO::Relaxed) { for k in [17usize, 64, 1000, 1024, 4096, 16384, 65536] { if k <= len { v.push(k); v.push(len - k); } } }
+    if BIG.load(AO::Relaxed) { for k in [17usize, 64, 1000, 1024, 4096, 16384, 65536, 131072] { if k <= len { v.push(k); v.push(len - k); } } }
     v
 }
 fn arg_around(rng: &mut Rng, vals: &[usize]) -> usize {
@@ -184,7 +184,7 @@ fn enc(d: &[u8]) -> String {
 }
 fn gen_data(rng: &mut Rng) -> Vec<u8> {
     if BIG.load(AO::Relaxed) && rng.chance(2, 3) {
-        let n = match rng.below(12) { 0 => 1000 + rng.below(100), 1 => 1024, 2 => 4096 - rng.below(3), 3 => 4096 + rng.below(9), 4 => 8192, 5 => 16384 + rng.below(2), 6 => 40000 + rng.below(100), 7 => 65536 - rng.below(2), 8 => 65536 + rng.below(9), 9 => 131072, _ => 2000 + rng.below(6000) } as usize;
+        let n = match rng.below(14) { 0 => 1000 + rng.below(100), 1 => 1024, 2 => 4096 - rng.below(3), 3 => 4096 + rng.below(9), 4 => 8192, 5 => 16384 + rng.below(2), 6 => 40000 + rng.below(100), 7 => 65536 - rng.below(2), 8 => 65536 + rng.below(9), 9 => 131072, 10 => 131073 + rng.below(8), 11 => *rng.pick(&[200000u64, 262144, 300000]), _ => 2000 + rng.below(6000) } as usize;
         let seed = rng.below(256) as usize; return (0..n).map(|i| zbyte(seed, i)).collect();
     }
     gen_data_small(rng)
@@ -204,7 +204,7 @@ fn gen_op(rng: &mut Rng, st: &St, last_split: &mut Option<(usize, usize)>, wild:
             15 => format!("bfiter:{}", enc(&d)), 16 => format!("mfiter:{}:{}", enc(&d), rng.below(2)), 17 => format!("mfstr:{}", crate::rng::hex(&asc(rng))),
             0 => "bnew".into(), 1 => format!("bstatic:{}", enc(&d)), 2 | 3 => format!("bfv:{}:{}", enc(&d), d.len()), 4 => format!("bfv:{}:{}", enc(&d), d.len() + 1 + rng.below(9) as usize),
             5 => format!("bowner:{}:{}", enc(&d), if rng.chance(1, 8) { 1 } else { 0 }), 6 => "mnew".into(),
-            7 => format!("mcap:{}", if BIG.load(AO::Relaxed) { *rng.pick(&[1024usize, 1023, 2048, 4096, 8192, 16384, 32768, 65536, 65537, 70000, 131072, 200000]) } else { *rng.pick(&[0usize, 1, 8, 16, 64, 100, 1024, 2000, 4096, 70000]) }), 8 => format!("mzero:{}", rng.below(20)),
+            7 => format!("mcap:{}", if BIG.load(AO::Relaxed) { *rng.pick(&[1024usize, 1023, 2048, 4096, 8192, 16384, 32768, 65536, 65537, 70000, 131072, 131073, 200000, 600000]) } else { *rng.pick(&[0usize, 1, 8, 16, 64, 100, 1024, 2000, 4096, 70000]) }), 8 => format!("mzero:{}", rng.below(20)),
             _ => format!("mslice:{}", enc(&d)),
         };
     }
@@ -215,7 +215,7 @@ fn gen_op(rng: &mut Rng, st: &St, last_split: &mut Option<(usize, usize)>, wild:
         H::B(b) => {
             let len = b.len();
             let idx = |rng: &mut Rng| -> usize { if wild && rng.chance(1, 6) { if rng.chance(1, 2) { len + 1 + rng.below(3) as usize } else { big(rng) } } else { arg_around(rng, &marks(&[0, 1, len / 2, len.saturating_sub(1), len], len)).min(if wild { usize::MAX } else { len }) } };
-            let draw = if focus && rng.chance(3, 4) { *rng.pick(&[14u64, 14, 13, 9, 9, 8, 18, 18, 10, 0]) } else { rng.below(20) };
+            let draw = if focus && rng.chance(3, 4) { *rng.pick(&[14u64, 14, 13, 9, 9, 8, 18, 18, 10, 0, 16]) } else { rng.below(20) };
             match draw {
                 0 | 1 => format!("bclone:{}", i),
                 2 | 3 => { let a = idx(rng); let b2 = idx(rng); let (a, b2) = if a <= b2 || (wild && rng.chance(1, 4)) { (a, b2) } else { (b2, a) }; format!("bslice:{}:{}:{}", i, a, b2) }
@@ -231,7 +231,7 @@ fn gen_op(rng: &mut Rng, st: &St, last_split: &mut Option<(usize, usize)>, wild:
             let (len, cap) = (m.len(), m.capacity());
             let bsz = ledger::block_size(m.as_ptr() as usize).unwrap_or(cap);
             let idx = |rng: &mut Rng, top: usize| -> usize { if wild && rng.chance(1, 6) { if rng.chance(1, 2) { top + 1 + rng.below(3) as usize } else { big(rng) } } else { arg_around(rng, &marks(&[0, 1, len / 2, len.saturating_sub(1), len, cap], len)).min(if wild { usize::MAX } else { top }) } };
-            let draw = if focus && rng.chance(3, 4) { *rng.pick(&[21u64, 21, 22, 8, 9, 10, 10, 11, 13, 13, 2, 5, 6, 19, 29, 7]) } else { rng.below(37) };
+            let draw = if focus && rng.chance(3, 4) { *rng.pick(&[21u64, 21, 22, 8, 9, 10, 10, 11, 11, 13, 13, 2, 2, 5, 6, 19, 29, 7, 24]) } else { rng.below(37) };
             match draw {
                 26 | 27 => { let k = *rng.pick(&[0usize, 1, 2, 3, 5, 15, 16, 17, 18, 31, 32, 33, 40]); let mut cs = vec![]; for _ in 0..k { let l = rng.below(5) as usize; let b0 = rng.next() as u8; let c: Vec<u8> = (0..l).map(|j| b0.wrapping_add(j as u8)).collect(); cs.push(if BIG.load(AO::Relaxed) && rng.chance(1, 12) { enc(&gen_data(rng)) } else { crate::rng::hex(&c) }); }
                              format!("mextb:{}:{}", i, if cs.is_empty() { "~".to_string() } else { cs.join(",") }) }
@@ -282,6 +282,21 @@ pub fn heap_random_mode(out: &mut dyn Write, seed: u64, n: usize, odd: bool, wil
         if arena && rng.chance(1, 3) {
             let sz = *rng.pick(&[2usize, 8, 16, 64]); let d1 = rng.bytes(sz); let d2 = rng.bytes(sz);
             for op in [format!("mslice:{}", crate::rng::hex(&d1)), format!("mslice:{}", crate::rng::hex(&d2)), format!("msplitoff:1:{}", sz), format!("msplitoff:2:{}", sz), "mdrop:3".to_string(), "mdrop:4".to_string(), "munsplit:1:2".to_string()] { step(&mut st, &op, &mut o); }
+        }
+        if BIG.load(AO::Relaxed) && !arena && rng.chance(1, 3) {
+            // life cycle of a codec buffer as the start state: a buffer that has grown, was drained (or mostly consumed) and whose parts are gone, so that the
+            // handle is (nearly) empty and alone on a large allocation: the states in which reclaiming, reuse and in-place conversion are decided
+            let big = *rng.pick(&[5000usize, 16384, 40000, 65536, 70000, 131072, 140000, 200000, 300000]);
+            let c0 = *rng.pick(&[0usize, 64, 1024, 4096, 65536]);
+            let sd = rng.below(256);
+            let pro: Vec<String> = match rng.below(4) {
+                0 => vec![format!("mcap:{}", c0), format!("mext:1:z{}x{}", sd, big), format!("msplitto:1:{}", big), "mdrop:2".to_string()],
+                1 => vec![format!("mcap:{}", c0), format!("mext:1:z{}x{}", sd, big), format!("msplitto:1:{}", big - *rng.pick(&[1usize, 17, 1000])), "mdrop:2".to_string()],
+                2 => vec![format!("mslice:z{}x{}", sd, big), format!("madv:1:{}", big - *rng.pick(&[0usize, 1, 64, 1000, 4097]))],
+                _ => vec![format!("bfv:z{}x{}:{}", sd, big, big + *rng.pick(&[0usize, 1, 4096])), format!("bsplitto:1:{}", big - *rng.pick(&[1usize, 64, 1000, 4000])), "bdrop:2".to_string()],
+            };
+            for op in pro { step(&mut st, &op, &mut o); }
+            FOCUS.with(|f| f.set(true)); LAST.with(|l| l.set(Some(1)));
         }
         for _ in 0..nops {
             let op = gen_op(&mut rng, &st, &mut last_split, wild);
